@@ -391,29 +391,34 @@ func (n *CandidateNode) doCopy(cloneContent bool) *CandidateNode {
 }
 
 // updates this candidate from the given candidate node
+// lineCommentToHead: the line comment of a node that was written on one line (a scalar, `[] # c`,
+// `{} # c`) cannot stay a line comment once the node holds block content: the yaml emitter would
+// print it after the *next* entry or lose it (and can produce unreadable yaml). Keep it, above
+// the new content.
+func (n *CandidateNode) lineCommentToHead() {
+	if n.LineComment == "" {
+		return
+	}
+	if n.HeadComment == "" {
+		n.HeadComment = n.LineComment
+	} else {
+		n.HeadComment = n.HeadComment + "\n" + n.LineComment
+	}
+	n.LineComment = ""
+}
+
 func (n *CandidateNode) UpdateFrom(other *CandidateNode, prefs assignPreferences) {
 	if n == other {
 		log.Debugf("UpdateFrom, no need to update from myself.")
 		return
 	}
+	wasOnOneLine := n.Kind == ScalarNode || len(n.Content) == 0 || n.Style&FlowStyle != 0
+
 	// if this is an empty map or empty array, use the style of other node.
 	if (n.Kind != ScalarNode && len(n.Content) == 0) ||
 		// if the tag has changed (e.g. from str to bool)
 		(n.guessTagFromCustomType() != other.guessTagFromCustomType()) {
 		n.Style = other.Style
-	}
-
-	if n.Kind == ScalarNode && (other.Kind == MappingNode || other.Kind == SequenceNode) && len(other.Content) > 0 &&
-		n.LineComment != "" && other.LineComment == "" {
-		// the line comment of a scalar cannot stay a line comment once the node is a
-		// collection: the yaml emitter would print it after the *next* entry (and
-		// can produce unreadable yaml). Keep it, above the new content.
-		if n.HeadComment == "" {
-			n.HeadComment = n.LineComment
-		} else {
-			n.HeadComment = n.HeadComment + "\n" + n.LineComment
-		}
-		n.LineComment = ""
 	}
 
 	// take the children before touching n: other may contain n (.a.b = .a),
@@ -428,6 +433,9 @@ func (n *CandidateNode) UpdateFrom(other *CandidateNode, prefs assignPreferences
 
 	n.UpdateAttributesFrom(other, prefs)
 
+	if wasOnOneLine && (n.Kind == MappingNode || n.Kind == SequenceNode) && len(n.Content) > 0 && n.Style&FlowStyle == 0 {
+		n.lineCommentToHead()
+	}
 }
 
 func (n *CandidateNode) UpdateAttributesFrom(other *CandidateNode, prefs assignPreferences) {
